@@ -18,7 +18,7 @@ CLAIMED = {
     technique="deterministic simulation: seeded parser sessions with abort-point sweep (failure injected at every token position) checked against a fresh-parser reference model",
     text="Exploration by deterministic simulation of call histories on one long-lived parser: seeded sessions biased to failing inputs, a systematic abort-point sweep (truncation / poison token at every cursor position, each followed by good parses on the same parser) and marathon sessions (one parser, 800-2500 calls, mostly new texts, many left with open groups). Oracles: per-op wall budget (termination), closed exception set with an own scanner deciding when ValueError is allowed, own link audit of returned trees, and agreement with a fresh parser -- and, for a seeded sample of requests, with a parser in a pristine process (zygote forked before any code under test ran) -- after every failure. Per-string clauses are sampled, not proved.",
     ref="DESIGN.md 3.2",
-    note="Trusted: fresh ExpressionParser() as the memoryless reference; own scanner for 'unsupported character / malformed number'; strings <= ~100 chars, nesting <= 60."),
+    note="Trusted: fresh ExpressionParser() as the memoryless reference; own scanner for 'unsupported character / malformed number'; ordinary strings <= ~100 chars with nesting <= 60; flat chains up to 1500 terms; nesting of 400/1500 levels only as a failing call (RecursionError accepted from bracket depth 100, never below)."),
  "C12": dict(
     technique="deterministic simulation: seeded call histories (parse/tokenize/clear/client list edits) on one parser, compared op-by-op with a memoryless reference model",
     text="Exploration by deterministic simulation: seeded sessions of parse / tokenize / clear_cache / failing-parse calls and list-level client edits of handed-out token lists on one long-lived parser over a small pool of confusable texts; every request is also issued to a fresh parser (the 'no memory' reference model) and, for a seeded sample, to a parser in a pristine process, and trees, token lists and exception classes must agree; marathon sessions (800-2500 calls, mostly new texts) exercise bounded caches and accumulating state. Sampling of histories; evidence, not proof.",
@@ -31,7 +31,7 @@ CLAIMED = {
     note="Trusted: the harness's own like-term detector and parameter ranges taken as 'documented ranges' (defaults, probabilities in [0,1], counts satisfiable within the 24-letter alphabet)."),
  "C18": dict(
     technique="deterministic simulation: seeded layout-call sessions on shared nodes (stale per-node state, sub-tree layouts, rotations between calls) against a pristine-clone reference layout; exhaustive small shapes as session starts",
-    text="Exploration by deterministic simulation of layout-call histories on one tree whose nodes keep layout scratch state between calls: repeated layouts (by one long-lived TreeLayout object or a new one per call), layouts of sub-trees, other multipliers and structural edits (rotate, swap, grow, prune) in between; trees are fresh shapes (random, motif-composed, full), parsed expressions and rewrite results with duplicate node ids. Reference model: the layout of a pristine clone of the current shape; mirror clone must give mirrored coordinates; tidy-tree invariants are step invariants on every call. Thorough tier enumerates every shape up to 10 nodes as session start (quick: 8) (exhaustive for the shape clause up to that bound) and samples larger ones.",
+    text="Exploration by deterministic simulation of layout-call histories on one tree whose nodes keep layout scratch state between calls: repeated layouts (by one long-lived TreeLayout object or a new one per call), layouts of sub-trees, other multipliers and structural edits (rotate, swap, grow, prune) in between; trees are fresh shapes (random, motif-composed, full; a 'tall' stratum with spines of 40-130 levels and marathon sessions of 500-1400 calls on one TreeLayout object), parsed expressions and rewrite results with duplicate node ids. Reference model: the layout of a pristine clone of the current shape; mirror clone must give mirrored coordinates; tidy-tree invariants are step invariants on every call. Thorough tier enumerates every shape up to 10 nodes as session start (quick: 8) (exhaustive for the shape clause up to that bound) and samples larger ones.",
     ref="DESIGN.md 3.5",
     note="Trusted: own invariant checker; the pristine-clone layout as reference for repeatability (real code on fresh nodes)."),
 }
